@@ -58,6 +58,63 @@ func sendsOnParam(P *core.Program, fn *ssa.Function, idx int, depth int) []ssa.I
 	return out
 }
 
+// sendsByVerdict: call is a call of a private helper with one bool result that is
+// handed fn's send channel; if on all paths with the same answer the helper sends
+// the same number of messages (in loops: not decidable), return that number per
+// answer.
+func sendsByVerdict(P *core.Program, call *ssa.Call, sendIdx int, fn *ssa.Function) (map[bool]int, bool) {
+	h := an.StaticCallee(&call.Call)
+	if !an.PrivateHelper(h) || h.Signature.Results().Len() != 1 || len(h.Params) != len(call.Call.Args) {
+		return nil, false
+	}
+	if bt, ok := h.Signature.Results().At(0).Type().Underlying().(*types.Basic); !ok || bt.Kind() != types.Bool {
+		return nil, false
+	}
+	pi := -1
+	for i, a := range call.Call.Args {
+		if an.Unwrap(a) == ssa.Value(fn.Params[sendIdx]) {
+			pi = i
+		}
+	}
+	if pi < 0 {
+		return nil, false
+	}
+	sends := map[ssa.Instruction]bool{}
+	for _, s := range sendsOnParam(P, h, pi, 0) {
+		if an.InLoop(s.Block()) {
+			return nil, false
+		}
+		sends[s] = true
+	}
+	out := map[bool]int{}
+	for _, want := range []bool{true, false} {
+		ps, ok := an.ResultPaths(h, 0, want)
+		if !ok {
+			return nil, false
+		}
+		cnt := -1
+		for _, p := range ps {
+			k := 0
+			for _, b := range p.Path {
+				for _, in := range b.Instrs {
+					if sends[in] {
+						k++
+					}
+				}
+			}
+			if cnt >= 0 && k != cnt {
+				return nil, false
+			}
+			cnt = k
+		}
+		if cnt < 0 {
+			cnt = 0
+		}
+		out[want] = cnt
+	}
+	return out, true
+}
+
 // mayDropOnParam: fn (or a module helper it hands the channel to) sends on its
 // idx-th parameter inside a select that has a default case.
 func mayDropOnParam(P *core.Program, fn *ssa.Function, idx int, depth int) bool {
@@ -222,6 +279,54 @@ func runGateChain(c *core.Ctx) {
 			verifyPath = an.PathOf(call)
 		}
 	})
+	// the signature check may live in a private helper that answers "forward this event?":
+	// then every true answer must follow Verify(msg.Event) == (true, nil), and the forward
+	// must be taken on the helper's true answer
+	var verifyHelper *ssa.Call
+	if verifyPath == "" {
+		for _, ci := range calls(fn) {
+			hc, isCall := ci.(*ssa.Call)
+			if !isCall {
+				continue
+			}
+			h := an.StaticCallee(&hc.Call)
+			if !an.PrivateHelper(h) || h.Signature.Results().Len() != 1 || len(h.Params) != len(hc.Call.Args) {
+				continue
+			}
+			var vcall *ssa.Call
+			for _, hci := range calls(h) {
+				if vc, ok := hci.(*ssa.Call); ok && strings.HasSuffix(an.CalleeName(&vc.Call), "mocrelay.Event).Verify") {
+					vcall = vc
+				}
+			}
+			if vcall == nil {
+				continue
+			}
+			tps, okp := an.ResultPaths(h, 0, true)
+			good := okp && len(tps) > 0
+			for _, tp := range tps {
+				e := tp.Has(func(g an.Cond) bool {
+					b, isBin := g.V.(*ssa.BinOp)
+					if !isBin || !an.IsNilConst(b.Y) {
+						return false
+					}
+					ex, isEx := b.X.(*ssa.Extract)
+					return isEx && ex.Tuple == ssa.Value(vcall) && ex.Index == 1 && ((b.Op == token.EQL) == g.True)
+				})
+				v := tp.Has(func(g an.Cond) bool {
+					ex, isEx := g.V.(*ssa.Extract)
+					return isEx && ex.Tuple == ssa.Value(vcall) && ex.Index == 0 && g.True
+				})
+				if !e || !v {
+					good = false
+				}
+			}
+			if good {
+				verifyHelper = hc
+				verifyPath = an.PathOfIn(vcall, &hc.Call)
+			}
+		}
+	}
 	evPaths, okErr, okValid := 0, true, true
 	for _, p := range paths {
 		isEvent := false
@@ -244,6 +349,9 @@ func runGateChain(c *core.Ctx) {
 			}
 			if verifyPath != "" && an.PathOf(val) == verifyPath+"#0" && pol {
 				v = true
+			}
+			if verifyHelper != nil && val == ssa.Value(verifyHelper) && pol {
+				e, v = true, true
 			}
 		}
 		okErr = okErr && e
@@ -306,6 +414,23 @@ func runGateOneNotice(c *core.Ctx) {
 				for _, in := range b.Instrs {
 					if fwd[in] {
 						f++
+					}
+					// a helper that decides and, when it refuses, rejects: how many messages it
+					// sends depends on its answer, which this path tests
+					if hc, isCall := in.(*ssa.Call); isCall && notices[in] {
+						if cnt, ok := sendsByVerdict(P, hc, g.sendIdx, fn); ok {
+							verdict, tested := false, false
+							for _, cd := range p.Conds() {
+								v, pol := stripNot(cd.V, cd.True)
+								if v == ssa.Value(hc) {
+									verdict, tested = pol, true
+								}
+							}
+							if tested {
+								n += cnt[verdict]
+								continue
+							}
+						}
 					}
 					if notices[in] {
 						n++
@@ -429,7 +554,7 @@ func runWritePath(c *core.Ctx) {
 	var loop *ssa.Function
 	// the write loop: receives from a <-chan ServerMsg parameter and calls json.Marshal
 	for _, fn := range P.ModFuncs {
-		if fileOf(c, fn) != "relay.go" || len(callsNamed(fn, "encoding/json.Marshal")) == 0 {
+		if fileOf(c, fn) != "relay.go" || fn.Parent() != nil || len(an.RegionCalls(fn, nil, "encoding/json.Marshal")) == 0 {
 			continue
 		}
 		for _, p := range fn.Params {
@@ -445,9 +570,12 @@ func runWritePath(c *core.Ctx) {
 	c.CountFuncs(1)
 	// received value → json.Marshal
 	var marshal *ssa.Call
-	for _, call := range callsNamed(loop, "encoding/json.Marshal") {
-		if strings.HasPrefix(an.PathOf(call.Call.Args[0]), "select#") {
+	marshalPath := ""
+	for _, o := range an.RegionCalls(loop, nil, "encoding/json.Marshal") {
+		call := o.In.(*ssa.Call)
+		if strings.HasPrefix(o.Path(call.Call.Args[0]), "select#") {
 			marshal = call
+			marshalPath = o.Path(call)
 		}
 	}
 	c.Check(marshal != nil, nil, fname(c, loop), "recv→Marshal", P.Pos(loop.Pos()), "the message received from send is marshalled as is", "the value received from the send channel is not what json.Marshal encodes")
@@ -467,7 +595,7 @@ func runWritePath(c *core.Ctx) {
 		nw++
 		wpos = o.Site().Pos()
 		k, isK := an.ConstInt(w.Call.Args[2])
-		if !(isK && k == 1 && o.Path(w.Call.Args[3]) == an.PathOf(marshal)+"#0") {
+		if !(isK && k == 1 && o.Path(w.Call.Args[3]) == marshalPath+"#0") {
 			okWrite = false
 			detail = fmt.Sprintf("conn.Write is called with frame type %v and payload %s", w.Call.Args[2], o.Path(w.Call.Args[3]))
 		}
@@ -488,11 +616,31 @@ func runWritePath(c *core.Ctx) {
 		if fn == loop {
 			continue
 		}
-		for _, caller := range P.ModFuncs {
-			if len(callsTo(caller, fn)) > 0 && caller != loop {
-				foreign = append(foreign, fname(c, caller)+"→"+fname(c, fn))
+		// every chain of module callers ends in the write loop
+		var check func(g *ssa.Function, depth int)
+		check = func(g *ssa.Function, depth int) {
+			for _, caller := range P.ModFuncs {
+				if len(callsTo(caller, g)) == 0 || caller == loop {
+					continue
+				}
+				// an intermediate private helper is fine if it, too, is only reached from the loop
+				if depth < 4 && an.PrivateHelper(caller) {
+					n0 := len(foreign)
+					callers := 0
+					for _, c2 := range P.ModFuncs {
+						callers += len(callsTo(c2, caller))
+					}
+					if callers > 0 {
+						check(caller, depth+1)
+						if len(foreign) == n0 {
+							continue
+						}
+					}
+				}
+				foreign = append(foreign, fname(c, caller)+"→"+fname(c, g))
 			}
 		}
+		check(fn, 0)
 	}
 	c.Check(n >= 1 && len(foreign) == 0, nil, fname(c, loop), "single-writer", P.Pos(loop.Pos()), fmt.Sprintf("all %d conn.Write call site(s) are reached only from the write loop", n), fmt.Sprintf("conn.Write is reachable from outside the write loop (%v): frames of different writers can interleave", foreign))
 }
